@@ -190,7 +190,7 @@ Definition run_route (c impl : sexp) : sexp :=
         A (L cls);
         Lst [ verdict "wf_invoked_route" wf_inv; verdict "wf_best_service" wf_best;
               verdict "jsr_tokens_agree_on_invoked" (match t_router t, inv with
-                                                     | Jsr311, Some (w, r) => jsr_tokens_agree w r
+                                                     | Jsr311, Some (w, r) => jsr_tokens_agree w r && jsr_names_agree w r
                                                      | _, _ => false end);
               verdict "jsr311" (match t_router t with Jsr311 => true | Curly => false end) ] ].
 
